@@ -16,7 +16,8 @@ EXPLANATION = (
     "Decides on the MIR: (1) the timeout handed to Poller::wait depends on both the caller's timeout and "
     "TimerWheel::next_deadline(), with positive evidence of a minimum and none of a maximum; dispatch/run/dispatch_events pass "
     "the caller's timeout through unchanged; the deadline used is that of an armed timer (cancel removes heap entries, C05.4); "
-    "(2) a zero timeout is forced only when before_sleep returned a synthetic event; (3) no permanent readiness after the peers "
+    "(2) a zero timeout is forced only when before_sleep returned a synthetic event, and no rewrite of the timeout can turn "
+    "Some(_) into None (every stored value is Some(..), the timeout itself, or None on the None arm of a test of it); (3) no permanent readiness after the peers "
     "are gone: a closed ping returns Remove, a closed channel returns Remove (re-evaluated from C03/C04), and the channel's "
     "drain bound is at least 1 (C02.4)."
 )
